@@ -1,8 +1,10 @@
 (* C14 — v1 load failures are library errors that name the innermost class and field.
    Statements only + Print Assumptions.  Model: coq/model/V1Errors.v (error values,
    once-only setters, re_raise), V1Eval.v (class skeleton, load_v1, locate);
-   proofs: coq/proofs/V1ErrProofs.v (+ V1GenSound.v for the generated code). *)
-From DW Require Import PyStr V1Base V1Gen V1Errors V1Eval V1GenInv V1GenSound V1ErrProofs.
+   proofs: coq/proofs/V1ErrProofs.v (+ V1GenSound.v for the generated code).
+   Call histories (function table shared by both engines, Meta bindings, the function a
+   nested position calls): coq/model/V1ErrHist.v, coq/proofs/V1ErrHistProofs.v. *)
+From DW Require Import PyStr V1Base V1Gen V1Errors V1Eval V1GenInv V1GenSound V1ErrProofs V1ErrHist V1ErrHistProofs.
 From Coq Require Import ZArith List Bool.
 Import ListNotations.
 
@@ -162,3 +164,128 @@ Example C14_ex_innermost :
              locate_n toy ct3 4 0 doc_ok = Some (S "D", Some (S "y")) /\
              class_name le = Some (S "D") /\ e_fld le = Some (S "y").
 Proof. vm_compute. eexists. repeat split; reflexivity. Qed.
+
+(* ======================================================================================
+   Call histories.  State = (CLASS_TO_LOAD_FUNC : class -> (engine that compiled it, function),
+   _META : class -> (v1, recursive)); operations = LoadMeta(..).bind_to(cls) and fromdict(cls, doc)
+   in ANY order on ANY classes of the table (stand-alone loads of nested classes by either
+   engine, loads under other roots, re-binding a class after it was compiled ...).  fromdict
+   calls the table entry if there is one, else compiles with the engine the class's Meta selects
+   NOW and stores the function.  A nested dataclass position of a v1 function is resolved by
+   `resolve_generate` (the real code: always a freshly generated v1 function, whatever the table,
+   the config handed down (recursive or not) and the nested class's own Meta say).  The default
+   engine is an ARBITRARY function of state and class (`dflt`).
+   ====================================================================================== *)
+
+(* History independence: a load that is executed by a v1-compiled function after ANY history
+   computes exactly (value or error: kind, class_name, field_name, obj, missing names) what the
+   same load computes in the pristine state, with either `recursive` setting. *)
+Theorem C14_history_independent :
+  forall Or ct n dflt ops c o st' r,
+  fromdict Or ct n resolve_generate dflt (after Or ct n resolve_generate dflt ops) c o = (st', (EV1, r)) ->
+  r = load_cls Or ct n c o /\
+  forall b, snd (fromdict Or ct n resolve_generate dflt
+                   (fst (hstep Or ct n resolve_generate dflt pristine (OBind c {| m_v1 := true; m_rec := b |}))) c o)
+            = (EV1, r).
+Proof.
+  intros Or ct n dflt ops c o st' r H. pose proof (hist_independent Or ct n dflt ops c o st' r H) as E.
+  split; [exact E|]. intro b. rewrite E. apply pristine_load.
+Qed.
+Print Assumptions C14_history_independent.
+
+(* library_error over all histories *)
+Theorem C14_hist_library_error :
+  forall Or ct n dflt ops c o st' e,
+  c < List.length ct ->
+  fromdict Or ct n resolve_generate dflt (after Or ct n resolve_generate dflt ops) c o = (st', (EV1, Err e)) ->
+  is_library e = true \/ is_marker e = true.
+Proof. exact hist_library_error. Qed.
+Print Assumptions C14_hist_library_error.
+
+(* innermost attribution over all histories (same safe shape and oracle hypothesis as
+   C14_innermost_partial) *)
+Theorem C14_hist_innermost_partial :
+  forall Or ct n dflt,
+  (forall l o v e, conv Or l o v = Err e -> is_library e = false) ->
+  c14_ct ct = true ->
+  forall ops c dd kvs st' e,
+  c < List.length ct -> dc_shape_n ct n c (VDict dd kvs) = true ->
+  fromdict Or ct n resolve_generate dflt (after Or ct n resolve_generate dflt ops) c (VDict dd kvs) = (st', (EV1, Err e)) ->
+  is_marker e = true \/
+  exists le a, e = XLib le /\ locate_n Or ct n c (VDict dd kvs) = Some a /\
+               class_name le = Some (fst a) /\
+               (parse_family le = true -> e_fld le = snd a /\ snd a <> None) /\
+               (parse_family le = false -> snd a = None).
+Proof. intros Or ct n dflt. exact (hist_innermost Or ct n dflt). Qed.
+Print Assumptions C14_hist_innermost_partial.
+
+(* which engine executes fromdict(c, _) after a history: the Meta bound to c when c was FIRST
+   loaded decides (a table hit ignores the current Meta), else the current Meta *)
+Theorem C14_hist_engine_first_use :
+  forall Or ct n dflt ops c o,
+  fst (snd (fromdict Or ct n resolve_generate dflt (after Or ct n resolve_generate dflt ops) c o)) =
+  engine_spec meta_abstract ops c.
+Proof. exact hist_engine. Qed.
+Print Assumptions C14_hist_engine_first_use.
+
+(* ---- witnesses ---- Outer.middle : Middle ; Middle.inner : Inner, Middle.items : list[Inner] ; Inner.x : int *)
+Definition fdd (n : string) (t : ty) (dv : pv) : fdecl :=
+  {| f_name := S n; f_ty := t; f_default := Some dv; f_keys := [S n]; f_dkey := S n |}.
+Definition ctH : ctable :=
+  [{| c_name := S "Outer"; c_fields := [fd "middle" (TData 1); fdd "n" (TLeaf LInt) (VInt 0)] |};
+   {| c_name := S "Middle"; c_fields := [fd "inner" (TData 2); fdd "items" (TSeq KList (TData 2)) (VSeq KList [])] |};
+   {| c_name := S "Inner"; c_fields := [fd "x" (TLeaf LInt); fdd "s" (TLeaf LStr) (VStr [])] |};
+   {| c_name := S "Other"; c_fields := [fd "mid" (TData 1); fd "inn" (TOpt (TData 2))] |}].
+(* a default engine whose conversion errors escape as bare exceptions *)
+Definition dflt_toy : hstate -> cid -> loader :=
+  fun _ c o => match load_cls toy ctH 4 c o with Ok v => Ok v | Err _ => bare "ValueError" end.
+Definition v1_nonrec := {| m_v1 := true; m_rec := false |}.
+Definition v1_rec := {| m_v1 := true; m_rec := true |}.
+Definition inner_ok := d [("x", VInt 1)].
+Definition doc_H := d [("middle", d [("inner", d [("x", VStr (S "abc"))])])].
+Definition doc_H2 := d [("middle", d [("inner", inner_ok);
+                                     ("items", VSeq KList [d [("x", VInt 2)]; d [("x", VSeq KList [VInt 3])]])])].
+(* Inner loaded alone by the default engine; Middle bound to v1 and loaded alone; a second root
+   (default engine) used; Inner re-bound to v1 AFTER it was compiled; then Outer, v1, recursive=False *)
+Definition hist_mixed : list (hop) :=
+  [OLoad 2 inner_ok; OBind 1 v1_rec; OLoad 1 (d [("inner", inner_ok)]);
+   OLoad 3 (d [("mid", d [("inner", inner_ok)]); ("inn", VNone)]); OBind 2 v1_rec; OBind 0 v1_nonrec].
+
+Example C14_ex_history :
+  exists le le2,
+    snd (fromdict toy ctH 4 resolve_generate dflt_toy (after toy ctH 4 resolve_generate dflt_toy hist_mixed) 0 doc_H)
+      = (EV1, Err (XLib le)) /\
+    class_name le = Some (S "Inner") /\ e_fld le = Some (S "x") /\ e_obj le = VStr (S "abc") /\
+    dc_shape_n ctH 4 0 doc_H = true /\ locate_n toy ctH 4 0 doc_H = Some (S "Inner", Some (S "x")) /\
+    snd (fromdict toy ctH 4 resolve_generate dflt_toy (after toy ctH 4 resolve_generate dflt_toy hist_mixed) 0 doc_H2)
+      = (EV1, Err (XLib le2)) /\
+    class_name le2 = Some (S "Inner") /\ e_fld le2 = Some (S "x") /\ e_obj le2 = VSeq KList [VInt 3] /\
+    (* Inner was compiled by the default engine before it was bound to v1: the table entry stays *)
+    fst (snd (fromdict toy ctH 4 resolve_generate dflt_toy (after toy ctH 4 resolve_generate dflt_toy hist_mixed) 2 inner_ok)) = EDflt /\
+    fst (snd (fromdict toy ctH 4 resolve_generate dflt_toy (after toy ctH 4 resolve_generate dflt_toy hist_mixed) 1 inner_ok)) = EV1.
+Proof. vm_compute. do 2 eexists. repeat split; reflexivity. Qed.
+
+(* The statements are about the resolver of the real code.  With the SHORTCUT resolver (a nested
+   position re-uses the table entry of its class when no config is handed down) they are false:
+   after `fromdict(Inner, ..)` by the default engine, Outer (v1, recursive=False) calls the
+   default-engine function at Middle.inner; the bare error is wrapped one level up and the
+   ParseError names (Middle, inner) with the whole nested dict as value — pristine: (Inner, x), 'abc'. *)
+Theorem C14_shortcut_resolver_refuted :
+  exists le le0,
+    snd (fromdict toy ctH 4 resolve_shortcut dflt_toy
+           (after toy ctH 4 resolve_shortcut dflt_toy [OLoad 2 inner_ok; OBind 0 v1_nonrec]) 0 doc_H)
+      = (EV1, Err (XLib le)) /\
+    class_name le = Some (S "Middle") /\ e_fld le = Some (S "inner") /\
+    e_obj le = d [("x", VStr (S "abc"))] /\
+    load_cls toy ctH 4 0 doc_H = Err (XLib le0) /\
+    class_name le0 = Some (S "Inner") /\ e_fld le0 = Some (S "x") /\ e_obj le0 = VStr (S "abc") /\
+    locate_n toy ctH 4 0 doc_H = Some (S "Inner", Some (S "x")) /\
+    (* the same history under the real resolver, and the shortcut without the earlier load *)
+    snd (fromdict toy ctH 4 resolve_generate dflt_toy
+           (after toy ctH 4 resolve_generate dflt_toy [OLoad 2 inner_ok; OBind 0 v1_nonrec]) 0 doc_H)
+      = (EV1, Err (XLib le0)) /\
+    snd (fromdict toy ctH 4 resolve_shortcut dflt_toy
+           (after toy ctH 4 resolve_shortcut dflt_toy [OBind 0 v1_nonrec]) 0 doc_H)
+      = (EV1, Err (XLib le0)).
+Proof. vm_compute. do 2 eexists. repeat split; reflexivity. Qed.
+Print Assumptions C14_shortcut_resolver_refuted.
